@@ -27,7 +27,7 @@ import ast
 import hashlib
 
 PURE_CALL_ROOTS = ("np", "numpy", "math")
-PURE_BUILTINS = {"len", "range", "int", "float", "bool", "tuple", "list", "slice", "min", "max", "abs", "sorted", "isinstance", "str", "zip", "enumerate", "sum", "round", "repr", "type", "dict", "set", "frozenset", "reversed", "any", "all", "divmod"}
+PURE_BUILTINS = {"OrderedDict", "defaultdict", "len", "range", "int", "float", "bool", "tuple", "list", "slice", "min", "max", "abs", "sorted", "isinstance", "str", "zip", "enumerate", "sum", "round", "repr", "type", "dict", "set", "frozenset", "reversed", "any", "all", "divmod"}
 TERMINATORS = (ast.Return, ast.Raise, ast.Continue, ast.Break)
 NEG = {ast.Eq: ast.NotEq, ast.NotEq: ast.Eq, ast.Is: ast.IsNot, ast.IsNot: ast.Is, ast.In: ast.NotIn, ast.NotIn: ast.In}
 
@@ -47,6 +47,25 @@ def dotted(n):
     return None
 
 
+def _is_text(e):
+    """an expression that is certainly a piece of message text"""
+    if isinstance(e, ast.Constant) and isinstance(e.value, str):
+        return True
+    if isinstance(e, ast.JoinedStr):
+        return True
+    if isinstance(e, ast.Call) and isinstance(e.func, ast.Attribute) and e.func.attr == "format" and _is_text(e.func.value):
+        return True
+    if isinstance(e, ast.BinOp) and isinstance(e.op, (ast.Mod, ast.Add)) and (_is_text(e.left) or _is_text(e.right)):
+        return True
+    return False
+
+
+def _no_wording(e):
+    """the wording of an error / warning message is not behaviour any property speaks about; anything else an exception
+    carries (a mask, an index) is kept"""
+    return ast.Constant(value="") if _is_text(e) else e
+
+
 # ------------------------------------------------------------------ step 1
 def strip_docs(fn):
     for n in ast.walk(fn):
@@ -54,9 +73,9 @@ def strip_docs(fn):
             if n.body and isinstance(n.body[0], ast.Expr) and isinstance(n.body[0].value, ast.Constant) and isinstance(n.body[0].value.value, str):
                 n.body = n.body[1:] or [ast.Pass()]
         if isinstance(n, ast.Raise) and isinstance(n.exc, ast.Call) and isinstance(n.exc.func, (ast.Name, ast.Attribute)):
-            n.exc.args, n.exc.keywords = [], []
+            n.exc.args = [_no_wording(a) for a in n.exc.args]
         if isinstance(n, ast.Call) and dotted(n.func) in ("warnings.warn", "warn") and n.args:
-            n.args = [ast.Constant(value="")] + n.args[1:]
+            n.args = [_no_wording(n.args[0])] + n.args[1:]
 
 
 # ------------------------------------------------------------------ scopes
@@ -212,6 +231,29 @@ def _key(t):
     return (_nots(t), len(ast.unparse(t)), ast.unparse(t))
 
 
+def _names_only(e):
+    return all(isinstance(x, (ast.Name, ast.Tuple, ast.Load, ast.Constant)) for x in ast.walk(e))
+
+
+def _stores_names(stmts, names):
+    for s_ in stmts:
+        for x in ast.walk(s_):
+            if isinstance(x, ast.Name) and isinstance(x.ctx, (ast.Store, ast.Del)) and x.id in names:
+                return True
+    return False
+
+
+def _split_ok(st):
+    tg = [x.id for x in st.targets[0].elts]
+    for j, e in enumerate(st.value.elts):
+        names = {x.id for x in ast.walk(e) if isinstance(x, ast.Name)}
+        if names & set(tg[:j]):
+            return False
+        if any(isinstance(x, (ast.Call,)) and not _pure(x) for x in ast.walk(e)) and j > 0:
+            return False  # an impure later element could observe the earlier assignment only through state, keep it simple
+    return True
+
+
 def _is_none_return(st):
     return isinstance(st, ast.Return) and (st.value is None or (isinstance(st.value, ast.Constant) and st.value.value is None))
 
@@ -246,6 +288,17 @@ def canon_block(body, tail=False):
                 i += 1
                 continue
             last = not rest
+            if not B and len(A) == 1 and isinstance(A[0], ast.Return) and A[0].value is not None and rest and isinstance(rest[-1], ast.Return) \
+                    and rest[-1].value is not None and ast.unparse(rest[-1].value) == ast.unparse(A[0].value) and _names_only(A[0].value) \
+                    and not _stores_names(rest[:-1], {x.id for x in ast.walk(A[0].value) if isinstance(x, ast.Name)}) and not _has_return(rest[:-1]):
+                # if t: return R ; rest ; return R   ==   if not t: rest ; return R      (R: plain names that `rest` does not re-bind)
+                inner = canon_block(rest[:-1], False)
+                if inner:
+                    out.append(ast.If(test=_neg(t), body=inner, orelse=[]))
+                else:
+                    out.append(ast.Expr(value=t))
+                out.append(rest[-1])
+                return out
             if tail and not B and len(A) == 1 and _is_none_return(A[0]) and rest:
                 # guard clause:  if t: return ; rest   ==   if not t: rest      (falling off `rest` ends the function)
                 inner = canon_block(rest, True)
@@ -290,11 +343,11 @@ def canon_block(body, tail=False):
         elif isinstance(st, (ast.FunctionDef, ast.AsyncFunctionDef)):
             st.body = canon_block(st.body, True) or [ast.Pass()]
         elif isinstance(st, ast.Assign) and len(st.targets) == 1 and isinstance(st.targets[0], ast.Tuple) and isinstance(st.value, ast.Tuple) \
-                and len(st.targets[0].elts) == len(st.value.elts) and all(isinstance(x, ast.Name) for x in st.targets[0].elts + st.value.elts) \
-                and not ({x.id for x in st.targets[0].elts} & {x.id for x in st.value.elts}) and len({x.id for x in st.targets[0].elts}) == len(st.targets[0].elts):
-            # a, b = x, y  with plain distinct names on both sides: two independent copies
+                and len(st.targets[0].elts) == len(st.value.elts) and all(isinstance(x, ast.Name) for x in st.targets[0].elts) \
+                and len({x.id for x in st.targets[0].elts}) == len(st.targets[0].elts) and _split_ok(st):
+            # a, b = e1, e2  where no later right-hand side reads an earlier target: the same as  a = e1 ; b = e2
             for tg, vl in zip(st.targets[0].elts, st.value.elts):
-                out.append(ast.Assign(targets=[ast.Name(id=tg.id, ctx=ast.Store())], value=ast.Name(id=vl.id, ctx=ast.Load()), lineno=getattr(st, "lineno", 1)))
+                out.append(ast.Assign(targets=[ast.Name(id=tg.id, ctx=ast.Store())], value=vl, lineno=getattr(st, "lineno", 1)))
             i += 1
             continue
         if isinstance(st, ast.Assign) and len(st.targets) == 1 and isinstance(st.targets[0], ast.Name) and isinstance(st.value, ast.Name) and st.value.id == st.targets[0].id:
@@ -396,7 +449,7 @@ def _eval_before(root, target):
                 continue
             return None
         if isinstance(parent, ast.Call):
-            order = [parent.func] + list(parent.args) + [k.value for k in parent.keywords]
+            order = [parent.func] + list(parent.args) + list(parent.keywords)
         elif isinstance(parent, ast.BinOp):
             order = [parent.left, parent.right]
         elif isinstance(parent, ast.Subscript):
@@ -438,7 +491,9 @@ def _eval_before(root, target):
         for o in order:
             if o is child:
                 break
-            before.append(o)
+            before.append(o.value if isinstance(o, ast.keyword) else o)
+        else:
+            return None  # the position of `child` in its parent is not understood
     return before
 
 
@@ -517,6 +572,16 @@ def inline_temps(fn):
                     body.remove(st)
                     changed = True
                     break
+                # index arithmetic (a number computed from numbers that are bound exactly once): every use may spell it out
+                if loads and 1 < len(loads) <= 6 and len(ast.unparse(e)) <= 60 and _index_arith(e) and _after(fn, st, loads, allow_loop=True) \
+                        and _names_fixed(sc, e) and _same_loop(fn, st, loads):
+                    for b2 in _blocks(fn):
+                        for k, s2 in enumerate(b2):
+                            if s2 is not st:
+                                b2[k] = _Subst(t, e).visit(s2)
+                    body.remove(st)
+                    changed = True
+                    break
                 # a name for an attribute chain of a fixed object (groups = new._landmark_groups): every use may read the chain
                 # itself, provided nothing in the function can re-bind an attribute of that name and the object is not handed
                 # to code that could (no call on it, no call receiving it, between the definition and the last use)
@@ -545,6 +610,85 @@ def inline_temps(fn):
     return fn
 
 
+IMMUTABLE_ATTRS = {"shape", "dtype", "ndim", "size", "n_dims", "n_points", "n_channels", "real", "imag"}
+
+
+def _reads_state(e):
+    """reads something that an intervening statement could change: an attribute (other than the immutable facts of an array /
+    shape), or an element of a mutable object"""
+    for x in ast.walk(e):
+        if isinstance(x, ast.Attribute) and x.attr not in IMMUTABLE_ATTRS:
+            # a method of a pure call (x.copy()) is fine, a data attribute is not
+            par_is_call = False
+            for y in ast.walk(e):
+                if isinstance(y, ast.Call) and y.func is x:
+                    par_is_call = True
+            if not par_is_call:
+                return True
+        if isinstance(x, ast.Subscript) and not isinstance(x.value, (ast.Name, ast.Attribute)):
+            continue
+    return False
+
+
+def _index_arith(e):
+    """a number: names, numeric constants, + - * // %, unary minus, x.shape[k]"""
+    if isinstance(e, ast.Name):
+        return True
+    if isinstance(e, ast.Constant):
+        return isinstance(e.value, (int, float)) and not isinstance(e.value, bool)
+    if isinstance(e, ast.BinOp):
+        return isinstance(e.op, (ast.Add, ast.Sub, ast.Mult, ast.FloorDiv, ast.Mod)) and _index_arith(e.left) and _index_arith(e.right)
+    if isinstance(e, ast.UnaryOp):
+        return isinstance(e.op, ast.USub) and _index_arith(e.operand)
+    if isinstance(e, ast.Subscript):
+        # the extent of an array along an axis does not change while the name stays bound to it
+        return isinstance(e.value, ast.Attribute) and e.value.attr == "shape" and isinstance(e.value.value, ast.Name) and isinstance(e.slice, ast.Constant)
+    return False
+
+
+def _elements_stable(fn, e):
+    """no element of an array that `e` indexes is written anywhere in the function"""
+    bases = {x.value.id for x in ast.walk(e) if isinstance(x, ast.Subscript) and isinstance(x.value, ast.Name)}
+    if not bases:
+        return True
+    for n in ast.walk(fn):
+        if isinstance(n, ast.Subscript) and isinstance(n.ctx, (ast.Store, ast.Del)) and isinstance(n.value, ast.Name) and n.value.id in bases:
+            return False
+        if isinstance(n, ast.AugAssign) and isinstance(n.target, ast.Name) and n.target.id in bases:
+            return False
+        if isinstance(n, ast.Call) and any(k.arg in ("out", "output", "dst") for k in n.keywords):
+            return False
+    return True
+
+
+def _names_fixed(sc, e):
+    for x in ast.walk(e):
+        if isinstance(x, ast.Name) and isinstance(x.ctx, ast.Load):
+            n = len(sc.stores.get(x.id, []))
+            if x.id in sc.params:
+                if n != 0:
+                    return False
+            elif x.id in sc.stores and n != 1:
+                return False
+            if x.id in sc.nested_names:
+                return False
+    return True
+
+
+def _innermost_loop(fn, node):
+    best = None
+    for n in ast.walk(fn):
+        if isinstance(n, (ast.For, ast.While, ast.AsyncFor)) and any(x is node for x in ast.walk(n)) and n is not node:
+            if best is None or any(x is n for x in ast.walk(best)):
+                best = n
+    return best
+
+
+def _same_loop(fn, st, loads):
+    lp = _innermost_loop(fn, st)
+    return all(_innermost_loop(fn, l) is lp or (lp is not None and any(x is l for x in ast.walk(lp))) for l in loads) if lp is not None else all(_innermost_loop(fn, l) is None for l in loads)
+
+
 def _attr_chain(e):
     n = 0
     while isinstance(e, ast.Attribute):
@@ -570,6 +714,12 @@ def _chain_stable(fn, sc, e, st, loads):
     lo = (getattr(st, "end_lineno", st.lineno), getattr(st, "end_col_offset", 0))
     hi = max(_pos(l) for l in loads)
     for n in ast.walk(fn):
+        if isinstance(n, ast.Attribute) and isinstance(n.ctx, (ast.Store, ast.Del)) and lo <= _pos(n) <= hi:
+            r = n
+            while isinstance(r, (ast.Attribute, ast.Subscript)):
+                r = r.value
+            if isinstance(r, ast.Name) and r.id == root:
+                return False  # some attribute of the object is re-bound in between: a computed attribute may depend on it
         if isinstance(n, ast.Call) and lo <= _pos(n) <= hi:
             f = n.func
             r = f
@@ -587,10 +737,10 @@ def _pos(n):
     return (getattr(n, "lineno", 0), getattr(n, "col_offset", 0))
 
 
-def _after(fn, st, loads):
+def _after(fn, st, loads, allow_loop=False):
     """all loads come textually after the defining statement (no loop-carried use before the definition)"""
     end = (getattr(st, "end_lineno", st.lineno), getattr(st, "end_col_offset", 0))
-    return all(_pos(l) >= end for l in loads) and not _in_loop(fn, st)
+    return all(_pos(l) >= end for l in loads) and (allow_loop or not _in_loop(fn, st))
 
 
 def _in_loop(fn, st):
@@ -653,6 +803,15 @@ def _tail_form(stmts):
         if not _has_return([st]):
             out.append(st)
             continue
+        if isinstance(st, ast.Try) and not st.finalbody and not st.orelse and not stmts[i + 1:]:
+            tb = _tail_form(st.body)
+            hs = [_tail_form(h.body) for h in st.handlers]
+            if tb is None or any(h is None for h in hs) or not _ends_in_return(tb) or not all(_ends_in_return(h) for h in hs):
+                return None
+            st.body = tb
+            for h, hb in zip(st.handlers, hs):
+                h.body = hb
+            return out + [st]
         if not isinstance(st, ast.If):
             return None
         rest = stmts[i + 1:]
@@ -683,6 +842,10 @@ def _tail_form(stmts):
     return out
 
 
+def _ends_in_return(b):
+    return bool(b) and (isinstance(b[-1], ast.Return) or (isinstance(b[-1], ast.If) and _all_paths_return(b[-1])))
+
+
 def _all_paths_return(st):
     def lst(b):
         return bool(b) and (isinstance(b[-1], ast.Return) or (isinstance(b[-1], ast.If) and _all_paths_return(b[-1])))
@@ -699,6 +862,11 @@ def _replace_returns(stmts, make):
     if isinstance(last, ast.If) and _has_return([last]):
         last.body = _replace_returns(last.body, make)
         last.orelse = _replace_returns(last.orelse, make)
+        return stmts
+    if isinstance(last, ast.Try) and _has_return([last]):
+        last.body = _replace_returns(last.body, make)
+        for h in last.handlers:
+            h.body = _replace_returns(h.body, make)
         return stmts
     return stmts + make(None)
 
@@ -837,7 +1005,12 @@ def inline_helpers(fn, helpers, method_helpers, counter=None):
 
 
 # ------------------------------------------------------------------ step 6
-def alpha(fn):
+def alpha(fn, depth=0):
+    # nested functions are scopes of their own
+    for n in ast.walk(fn):
+        if n is not fn and isinstance(n, (ast.FunctionDef, ast.AsyncFunctionDef)) and not getattr(n, "_alpha_done", False):
+            n._alpha_done = True
+            alpha(n, depth + 1)
     # comprehension variables first, each comprehension its own numbering (they never leak)
     k = [0]
 
@@ -851,7 +1024,7 @@ def alpha(fn):
                         targets.append(x.id)
             m = {}
             for t in targets:
-                m[t] = "_C%d" % k[0]
+                m[t] = "_C%s%d" % ("n" * depth, k[0])
                 k[0] += 1
             first_iter = n.generators[0].iter
             r = _Rename(m)
@@ -877,7 +1050,7 @@ def alpha(fn):
         st = sc.stores[n][0]
         if isinstance(st, (ast.FunctionDef, ast.AsyncFunctionDef, ast.ClassDef)):
             continue
-        mapping[n] = "_L%d" % len(mapping)
+        mapping[n] = "_L%s%d" % ("n" * depth, len(mapping))
     fn.body = [_RenameOwn(mapping).visit(s) for s in fn.body]
     return fn
 
@@ -889,6 +1062,126 @@ class _RenameOwn(_Rename):
         return n
 
     visit_AsyncFunctionDef = visit_ClassDef = visit_Lambda = visit_FunctionDef
+
+
+def hoist_imports(fn):
+    """function-level imports are moved to the top of the function, sorted, once each (importing a module earlier, or
+    unconditionally, does not change what the function computes)"""
+    found = {}
+
+    def rec(body, top):
+        keep = []
+        for st in body:
+            if isinstance(st, (ast.Import, ast.ImportFrom)):
+                found[ast.unparse(st)] = st
+                continue
+            for fld in ("body", "orelse", "finalbody"):
+                b_ = getattr(st, fld, None)
+                if isinstance(b_, list) and b_ and isinstance(b_[0], ast.stmt) and not isinstance(st, (ast.FunctionDef, ast.AsyncFunctionDef, ast.ClassDef)):
+                    setattr(st, fld, rec(b_, False) or ([ast.Pass()] if fld == "body" else []))
+            for h in getattr(st, "handlers", []) or []:
+                h.body = rec(h.body, False) or [ast.Pass()]
+            keep.append(st)
+        return keep
+    fn.body = rec(fn.body, True)
+    fn.body = [found[k] for k in sorted(found)] + (fn.body or [ast.Pass()])
+    ast.fix_missing_locations(fn)
+
+
+def split_versions(fn):
+    """A variable that is simply re-used for an unrelated value gets a name per value: a plain assignment `v = e` at the top
+    level of a block starts a new version of v when the old value can no longer be read afterwards -- always at the top level
+    of the function body, and inside a branch when v is not read after the branch ends and the branch is not inside a loop.
+    (Two variables with disjoint live ranges and one re-used variable are the same program.)"""
+    sc = _Scope(fn)
+    cand = {n for n in sc.locals() if n not in sc.nested_names and n not in sc.comp_names and n not in sc.imports and len(sc.stores.get(n, [])) > 1}
+    if not cand:
+        return fn
+    counter = {}
+
+    def targets_of(st):
+        if isinstance(st, ast.Assign) and len(st.targets) == 1:
+            t = st.targets[0]
+            if isinstance(t, ast.Name):
+                return [t]
+            if isinstance(t, ast.Tuple) and all(isinstance(x, ast.Name) for x in t.elts):
+                return list(t.elts)
+        return []
+
+    def loads_after(name, node_end):
+        return [l for l in sc.loads.get(name, []) if _pos(l) > node_end]
+
+    def rename_in(nodes, name, new, skip_value_of=None):
+        class R(ast.NodeTransformer):
+            def visit_Name(self, n):
+                if n.id == name:
+                    n.id = new
+                return n
+
+            def visit_FunctionDef(self, n):
+                return n
+            visit_AsyncFunctionDef = visit_ClassDef = visit_Lambda = visit_FunctionDef
+        for n_ in nodes:
+            R().visit(n_)
+
+    def walk_block(body, top, in_loop, block_end):
+        for i, st in enumerate(body):
+            for tg in targets_of(st):
+                v = tg.id
+                base = v.split("#")[0]
+                if base not in cand or in_loop:
+                    continue
+                # first binding of the function keeps its name; later top-level re-definitions start a new version
+                earlier_store = any(_pos(x) < _pos(tg) for x in sc.stores.get(base, []) if x is not tg)
+                if not earlier_store:
+                    continue
+                if not top and loads_after(base, block_end):
+                    continue
+                counter[base] = counter.get(base, 0) + 1
+                new = "%s#%d" % (base, counter[base])
+                # the right-hand side still reads the old version; everything after this statement in the block reads the new one
+                tg.id = new
+                rename_in(body[i + 1:], v, new)
+            sub_loop = in_loop or isinstance(st, (ast.For, ast.While, ast.AsyncFor, ast.Try))  # a handler may read what the body assigned
+            for fld in ("body", "orelse", "finalbody"):
+                b_ = getattr(st, fld, None)
+                if isinstance(b_, list) and b_ and isinstance(b_[0], ast.stmt) and not isinstance(st, (ast.FunctionDef, ast.AsyncFunctionDef, ast.ClassDef)):
+                    end = (getattr(st, "end_lineno", 10 ** 9), getattr(st, "end_col_offset", 0))
+                    walk_block(b_, False, sub_loop, end)
+            for h in getattr(st, "handlers", []) or []:
+                walk_block(h.body, False, sub_loop, (getattr(st, "end_lineno", 10 ** 9), getattr(st, "end_col_offset", 0)))
+    walk_block(fn.body, True, False, (10 ** 9, 0))
+    if not counter:
+        return fn
+    # '#' is not an identifier character: give the versions legal names
+    for n in ast.walk(fn):
+        if isinstance(n, ast.Name) and "#" in n.id:
+            n.id = n.id.replace("#", "__v")
+    return clone(fn)
+
+
+def sort_pure_runs(fn):
+    """adjacent assignments of side-effect-free values to distinct names, none of which reads another's target, may be
+    written in any order: they are put in one (sorted by value) so that the order in which they were written does not matter"""
+    for body in _blocks(fn):
+        i = 0
+        while i < len(body):
+            j = i
+            run = []
+            while j < len(body):
+                st = body[j]
+                if isinstance(st, ast.Assign) and len(st.targets) == 1 and isinstance(st.targets[0], ast.Name) and _pure(st.value):
+                    names = {x.id for x in ast.walk(st.value) if isinstance(x, ast.Name)}
+                    if any(names & {r.targets[0].id} or st.targets[0].id in {x.id for x in ast.walk(r.value) if isinstance(x, ast.Name)} or r.targets[0].id == st.targets[0].id for r in run):
+                        break
+                    run.append(st)
+                    j += 1
+                else:
+                    break
+            if len(run) > 1:
+                body[i:j] = sorted(run, key=lambda r: ast.unparse(r.value))
+            i = max(j, i + 1)
+    return fn
 
 
 # ------------------------------------------------------------------ driver
@@ -926,20 +1219,23 @@ class _BindKeywords(ast.NodeTransformer):
 def canonical(fn_node, helpers=None, method_helpers=None, sigs=None):
     fn = clone(fn_node)
     strip_docs(fn)
+    if helpers or method_helpers:
+        fn = inline_helpers(fn, helpers or {}, method_helpers or {})
     if sigs:
         sc0 = _Scope(fn)
         fn = _BindKeywords(sigs, set(sc0.params) | (set(sc0.locals()) - sc0.imports)).visit(fn)
         ast.fix_missing_locations(fn)
-    if helpers or method_helpers:
-        fn = inline_helpers(fn, helpers or {}, method_helpers or {})
+    hoist_imports(fn)
     fn.body = canon_block(fn.body, True) or [ast.Pass()]
     ast.fix_missing_locations(fn)
     fn = _IfExpTests().visit(fn)
     ast.fix_missing_locations(fn)
     fn = clone(fn)
+    fn = split_versions(fn)
     fn = inline_temps(fn)
     if loops_to_comprehensions(fn):
         fn = inline_temps(clone(fn))
+    fn = sort_pure_runs(clone(fn))
     fn = clone(fn)
     fn = alpha(fn)
     ast.fix_missing_locations(fn)
